@@ -309,9 +309,9 @@ def matrix_suite(ctx, rn, tier):
     def in_quick(c):
         return c[3] in progmatrix.QUICK_VALS[c[1]] and c[4] in progmatrix.QUICK_VALS[c[2]]
     if quick:
-        # 120 of the error cases, chosen by the seed
+        # 60 of the error cases, chosen by the seed
         ctx.rng.shuffle(risky)
-        risky = sorted(risky[:120])
+        risky = sorted(risky[:60])
     else:
         # every error case over the quick value set (so quick is a subset whatever
         # the seed), and up to 1000 of the others, chosen by the seed
@@ -323,6 +323,11 @@ def matrix_suite(ctx, rn, tier):
     progs = []
     bsz = 150
     for i in range(0, len(calm), bsz):
+        if quick and (i // bsz) % 2 == 1:
+            # quick runs every second error-free batch of the (already reduced) matrix;
+            # the batches are a subset of those of the thorough tier
+            ctx.bump('matrix:error-free-batches-not-run(quick)')
+            continue
         b = progmatrix.Batch()
         for c in calm[i:i + bsz]:
             b.add(c)
@@ -349,13 +354,15 @@ def matrix_suite(ctx, rn, tier):
             b = progmatrix.Batch()
             b.add_unary(c)
             singles.append(b.finish())
-    ncases = len(calm) + len(scases) + len(ucases) + len(risky)
+    ncalm_run = sum(len(calm[i:i + bsz]) for i in range(0, len(calm), bsz)
+                    if not (quick and (i // bsz) % 2 == 1))
+    ncases = ncalm_run + len(scases) + len(ucases) + len(risky)
     ctx.rule.append(
         f'matrix: 18 binary operators x 16 numeric type pairs x boundary operand values '
         f'({"reduced set, 6 per type" if quick else "11-15 per type"}) + 7 string operators x 36 pairs + '
         f'NEG/NOT x 4 types: {ncases} expressions `PRINT a <op> b` with operands READ into typed '
         f'variables; {len(calm)} error-free ones batched {bsz} per program, {len(singles)} error '
-        f'cases one per program{" (120 of them, chosen by the seed)" if quick else " (all over the quick value set + up to 1000 others)"}; each program at the '
+        f'cases one per program{" (60 of them, chosen by the seed)" if quick else " (all over the quick value set + up to 1000 others)"}; each program at the '
         f'six configurations; non-trivial = distinct (operator, type pair)')
 
     def sig_single(p, name):
@@ -431,7 +438,7 @@ def matrix_suite(ctx, rn, tier):
 
 
 def random_suite(ctx, rn, tier, seed):
-    n = 100 if tier == 'quick' else 500
+    n = 40 if tier == 'quick' else 500
     n = int(os.environ.get('C01_N', n))
     profiles = [
         ({}, 0.62),
